@@ -312,3 +312,39 @@ def loop_trip_count(f, block):
             if init is not None and deep_strip(init) == Z:
                 return c
     return None
+
+
+class Probe:
+    """A recorder with the Rule interface that only remembers whether everything required held: lets one property's
+    check ask whether a rule of another property is established on the analysed tree."""
+
+    def __init__(self):
+        self.good = True
+        self.count = 0
+        self.failed = []
+
+    def ok(self, key, detail="", fn=None, site=None):
+        self.count += 1
+
+    def fail(self, key, detail="", fn=None, site=None, path=None):
+        self.count += 1
+        self.good = False
+        self.failed.append(key)
+
+    def require(self, cond, key, detail="", fn=None, site=None, fail_detail=None, path=None):
+        (self.ok if cond else self.fail)(key)
+        return bool(cond)
+
+    def floor(self, name, count, minimum):
+        self.require(count >= minimum, "floor:" + name)
+
+
+def established(rule_fn, *args):
+    """True if rule_fn(recorder, *args) records only satisfied obligations (and at least one)"""
+    from l4sa.core import AnchorMissing, ShapeUnrecognised
+    pr = Probe()
+    try:
+        rule_fn(pr, *args)
+    except (AnchorMissing, ShapeUnrecognised, KeyError, IndexError, TypeError, AttributeError):
+        return False
+    return pr.good and pr.count > 0
